@@ -182,6 +182,85 @@ func rhcPlain(t rhcV) string {
 	return kind
 }
 
+// rhcShape is the string-level fragment (Model/RhcTag.lean `shapeNums`,
+// Props.C12.rhctag_shape_plain): evaluated on the TEXT alone, without looking
+// at what Parse returned.  No ':'; an optional "v"; digits; then the end, a
+// '-', or '.' followed by the end / '-' (no minor) or by digits and the end /
+// '-' / '.'; both numbers below 2^31.
+func rhcShape(s string) (v bool, major, minor int64, ok bool) {
+	if strings.Contains(s, ":") {
+		return
+	}
+	b := s
+	if strings.HasPrefix(b, "v") {
+		v, b = true, b[1:]
+	}
+	digits := func(t string) int {
+		i := 0
+		for i < len(t) && t[i] >= '0' && t[i] <= '9' {
+			i++
+		}
+		return i
+	}
+	val := func(t string) (int64, bool) {
+		n, good := new(big.Int).SetString(t, 10)
+		if !good || !n.IsInt64() || n.Int64() >= 1<<31 {
+			return 0, false
+		}
+		return n.Int64(), true
+	}
+	i := digits(b)
+	if i == 0 {
+		return
+	}
+	var good bool
+	if major, good = val(b[:i]); !good {
+		return
+	}
+	rest := b[i:]
+	switch {
+	case rest == "" || rest[0] == '-':
+		return v, major, 0, true
+	case rest[0] == '.':
+		r1 := rest[1:]
+		j := digits(r1)
+		if j == 0 {
+			return v, major, 0, r1 == "" || r1[0] == '-'
+		}
+		if minor, good = val(r1[:j]); !good {
+			return
+		}
+		r2 := r1[j:]
+		if r2 == "" || r2[0] == '-' || r2[0] == '.' {
+			return v, major, minor, true
+		}
+	}
+	return v, 0, 0, false
+}
+
+func rhcShapeStr(s string) string {
+	v, M, m, ok := rhcShape(s)
+	switch {
+	case !ok:
+		return "no"
+	case v:
+		return fmt.Sprintf("v %d %d", M, m)
+	}
+	return fmt.Sprintf("plain %d %d", M, m)
+}
+
+// rhcFragment: the prefix kind ("v" / "plain") of a tag inside a proved
+// fragment — the string-level shape, or the token-level `plain` — else "no".
+func rhcFragment(t rhcV) string {
+	if v, _, _, ok := rhcShape(t.v.Original); ok {
+		if v {
+			return "v"
+		}
+		return "plain"
+	}
+	return rhcPlain(t)
+}
+
 // rhcWhy describes a tag outside the fragment, for the finding classes:
 //   "wrap"       a leading number of the text is >= 2^31 (int32 conversion wraps / Atoi fails)
 //   "nonnumeric" anything else (sign, letters, tilde, empty component, epoch colon)
@@ -211,9 +290,12 @@ func rhcWhy(s string) string {
 }
 
 // rhcClass names the listed finding a projection inversion belongs to; a
-// pair inside the proved fragment (both plain, same prefix) stays unclassified.
+// pair inside a proved fragment (both of the string-level shape, or both
+// plain, same prefix) stays unclassified.  The shape is decided on the text
+// alone, so a Parse that returns the wrong numbers for a well-shaped tag
+// cannot talk its way into a known class.
 func rhcClass(a, b rhcV) string {
-	pa, pb := rhcPlain(a), rhcPlain(b)
+	pa, pb := rhcFragment(a), rhcFragment(b)
 	switch {
 	case pa != "no" && pb != "no" && pa == pb:
 		return ""
@@ -246,36 +328,95 @@ func failCapped(r *hx.Run, cls, wit string) {
 	r.Fail(cls, wit)
 }
 
+// rhcPair: Compare(a,b) < 0 must not come with projection(a) > projection(b)
+// (either bound).  Returns false when a text does not parse.
+func rhcPair(r *hx.Run, a, b string, how string) bool {
+	ra, ca := rhcParse(a)
+	rb, cb := rhcParse(b)
+	if how != "random" {
+		// derived texts: their parses are protocol lines too
+		r.Op("rhc "+hexs(a), ca, ra.ok)
+		r.Op("rhc "+hexs(b), cb, rb.ok)
+	}
+	if !ra.ok || !rb.ok {
+		return false
+	}
+	x, y := ra.v, rb.v
+	c := cmpGuard(func() int { return sgn(x.Compare(&y)) })
+	if how != "random" {
+		r.Op("rhccmp "+hexs(a)+" "+hexs(b), cmpStr(c), true)
+	}
+	r.Case("rhctag projection "+q(a)+" "+q(b), c != 0)
+	if c == 99 {
+		r.Fail("", fmt.Sprintf("rhctag compare panics %s %s", q(a), q(b)))
+		return true
+	}
+	for _, min := range []bool{true, false} {
+		px, py := x.Version(min), y.Version(min)
+		pc := px.Compare(&py)
+		if min {
+			r.Count(fmt.Sprintf("rhctag:proj:%s:cmp=%d,proj=%d", how, c, pc))
+		}
+		if c != 0 && pc == -c {
+			cls := rhcClass(ra, rb)
+			r.Count("rhctag:proj:inverted:" + cls)
+			failCapped(r, cls, fmt.Sprintf("rhctag projection-inverts %s %s compare=%d Version(%v)=%v,%v", q(a), q(b), c, min, px.V[:3], py.V[:3]))
+			break
+		}
+	}
+	return true
+}
+
 func projections(r *hx.Run, rnd *hx.Rand, n int) {
-	// rhctag: Compare(a,b) < 0 must not come with projection(a) > projection(b)
 	for i := 0; i < n && !r.Stop(); i++ {
 		f := newFamily(rnd)
 		a, b := f.rhc(), f.rhc()
-		ra, _ := rhcParse(a)
-		rb, _ := rhcParse(b)
-		if !ra.ok || !rb.ok {
+		if rnd.Chance(1, 3) {
+			b = f.mutate(a, "rhctag")
+		}
+		for _, s := range []string{a, b} {
+			// the string-level fragment, harness against model: decided on the text alone
+			sh := rhcShapeStr(s)
+			r.Op("rhcshape "+hexs(s), sh, sh != "no")
+			r.Count("rhctag:shape:" + strings.Fields(sh)[0])
+		}
+		if !rhcPair(r, a, b, "random") {
 			continue
 		}
-		// the fragment of the projection theorem, harness against model
+		ra, _ := rhcParse(a)
+		rb, _ := rhcParse(b)
+		// the token-level fragment of the projection theorem, harness against model
 		for _, t := range []rhcV{ra, rb} {
 			pl := rhcPlain(t)
 			r.Op("rhcplain "+hexs(t.v.Original), pl, pl != "no")
 			r.Count("rhctag:plain:" + pl)
 		}
-		x, y := ra.v, rb.v
-		c := cmpGuard(func() int { return sgn(x.Compare(&y)) })
-		px, py := x.Version(true), y.Version(true)
-		pc := px.Compare(&py)
-		r.Case("rhctag projection "+q(a)+" "+q(b), c != 0 && pc != 0)
-		r.Count(fmt.Sprintf("rhctag:proj:cmp=%d,proj=%d", c, pc))
-		if c == 99 {
-			r.Fail("", fmt.Sprintf("rhctag compare panics %s %s", q(a), q(b)))
-			continue
-		}
-		if c != 0 && pc == -c {
-			cls := rhcClass(ra, rb)
-			r.Count("rhctag:proj:inverted:" + cls)
-			failCapped(r, cls, fmt.Sprintf("rhctag projection-inverts %s %s compare=%d projections=%v,%v", q(a), q(b), c, px.V[:2], py.V[:2]))
+		// neighbours: a well-shaped tag against the bare tags one minor / one major
+		// away (same prefix).  Whatever Parse makes of the tag's release part, its
+		// projection must stay between theirs.
+		if v, M, m, ok := rhcShape(a); ok && i%2 == 0 {
+			pre := ""
+			if v {
+				pre = "v"
+			}
+			rel := f.pick("", "", "-1", "-"+f.rhcRelease())
+			var nb []string
+			if m > 0 {
+				nb = append(nb, fmt.Sprintf("%s%d.%d%s", pre, M, m-1, rel))
+			}
+			if m+1 < 1<<31 {
+				nb = append(nb, fmt.Sprintf("%s%d.%d%s", pre, M, m+1, rel))
+			}
+			if M > 0 {
+				nb = append(nb, fmt.Sprintf("%s%d.%d%s", pre, M-1, m, rel))
+			}
+			if M+1 < 1<<31 {
+				nb = append(nb, fmt.Sprintf("%s%d.%d%s", pre, M+1, m, rel))
+			}
+			for _, b := range nb {
+				rhcPair(r, a, b, "neighbour")
+			}
+			r.Count("rhctag:neighbours")
 		}
 	}
 	// semver -> generic: semver.Compare(a,b) < 0 must not come with FromSemver(a) > FromSemver(b)
